@@ -285,14 +285,18 @@ def targeted_histories(disk_root: Path) -> list[dict]:
                 "ms": {"ins": [], "outs": []}, "internal": [], "cache": cache, "retnone": False}
     out = []
     idx = 0
-    for ca, cb in ((False, True), (True, True), (True, False)):
+    for ca, cb, deep in ((False, True, False), (True, True, False), (True, False, False), (False, True, True), (True, True, True)):
         for kind in ("replace", "update_bound", "update_defaults"):
             for ctype in CACHE_TYPES:
                 idx += 1
                 # (a default on an UPSTREAM function's parameter would legitimately switch caching off for fb: the
                 # root argument is then absent from the key material; the default therefore sits on fb itself)
-                tdesc = {"funcs": [fn("fa", ["x"], ["a"], ca),
-                                   fn("fb", ["a", "y", "w"], ["b"], cb, [["w", {"f": "@d_w", "a": []}]])]}
+                # deep: an uncached function BETWEEN the mutated one and the cached one (the mutation is two levels upstream)
+                # (fa's parameter z is bound from the start: update_bound then CHANGES a bound value, the root arguments stay)
+                fa = fn("fa", ["x", "z"], ["a"], ca)
+                fa["bound"] = [["z", {"f": "@b0_z", "a": []}]]
+                tdesc = {"funcs": [fa] + ([fn("fm", ["a"], ["m"], False)] if deep else []) +
+                                  [fn("fb", ["m" if deep else "a", "y", "w"], ["b"], cb, [["w", {"f": "@d_w", "a": []}]])]}
                 ddir = str(disk_root / f"t{idx}") if ctype == "disk" else None
                 ckw = cache_kwargs_for(ctype, 0, False, ddir)
                 pc, pu = make_twins(tdesc, ctype, ckw)
@@ -304,7 +308,8 @@ def targeted_histories(disk_root: Path) -> list[dict]:
                     new["retnone"] = True
                     mut = {"op": "mutate", "kind": "replace", **blank, "f": "fa", "func": new}
                 elif kind == "update_bound":
-                    mut = {"op": "mutate", "kind": "update_bound", **blank, "f": "fa", "p": "x", "v": {"f": "@bnd_x", "a": []}}
+                    which = ("x", "@bnd_x") if idx % 2 else ("z", "@b1_z")      # bind a root argument / change a bound value
+                    mut = {"op": "mutate", "kind": "update_bound", **blank, "f": "fa", "p": which[0], "v": {"f": which[1], "a": []}}
                 else:
                     mut = {"op": "mutate", "kind": "update_defaults", **blank, "p": "w", "v": {"f": "@d2_w", "a": []}}
                 script = [call_b, mut, dict(call_b), call_a]
